@@ -248,7 +248,8 @@ pub fn c17(thorough: bool, seed: u64, _threads: usize) -> Json {
     dirs.push("c17rel/inner".to_string());
     // existing relative directories whose names look like flags or negative numbers: the token behind a value-taking
     // flag is its value, whatever it looks like
-    for odd in ["-pub", "-s", "--overwrite", "-d", "-9", "--", "-"] {
+    // ... and names with blanks and tabs: an argument is one value, however it looks
+    for odd in ["-pub", "-s", "--overwrite", "-d", "-9", "--", "-", "tftp root", "a b/c d", " lead", "trail ", "tab\there", "-p 6969"] {
         if std::fs::create_dir_all(format!("./{odd}")).is_ok() {
             dirs.push(odd.to_string());
         }
